@@ -7,16 +7,18 @@
 (* each node runs BMCA once and each master port announces once, in any    *)
 (* interleaving; an Announce is delivered at some point of the round it    *)
 (* was sent in; a port's announce receipt timer fires between T and 2T     *)
-(* rounds after it was last re-armed. One fault (cut a segment, silence a  *)
-(* node, change a node's quality) may hit a converged network.             *)
+(* rounds after it was last re-armed. One fault (cut or restore a segment, *)
+(* silence a node, change a node's quality) may hit a converged network.   *)
 (*                                                                         *)
 (* Sequence ids are taken modulo 1 and ghost bookkeeping is off, so the    *)
 (* state space is finite; `stable` counts undisturbed rounds up to K.      *)
 (***************************************************************************)
 EXTENDS Naturals, Integers, Sequences, FiniteSets, TLC, Json, Tree
 
-CONSTANTS N, Topo, Prio, Class, SlaveOnly, NPorts, T, K, Faults, KeepHist
-\* Topo: set of segments (sets of <<node, port>>); Prio[n]: priority1; Class[n]: clockClass; NPorts[n]
+CONSTANTS N, Topo, Prio, Prio2, Class, SlaveOnly, NPorts, T, K, Faults, KeepHist, Cut0, ForceFault
+\* Topo: set of segments (sets of <<node, port>>); Prio[n]: priority1; Prio2[n]: priority2; Class[n]: clockClass; NPorts[n];
+\* Cut0: segments that are down when the network starts (the "restore" fault brings one back);
+\* ForceFault: a converged network does not start another round before the fault has happened (simulation: every behaviour has its fault)
 
 Nodes == 1..N
 AllPorts == UNION Topo
@@ -25,7 +27,7 @@ NoUtc == 99999
 NetTP0 == [utc |-> NoUtc, leap |-> 0, tt |-> FALSE, ft |-> FALSE, ptp |-> FALSE, src |-> 160]
 PCfgOf(n) == [i \in 1..NPorts[n] |-> [p2p |-> FALSE, mo |-> FALSE, aml |-> {0}, keep |-> 1]]
 
-Node(n) == INSTANCE Instance WITH Own <- n, OwnP <- [p1 |-> Prio[n], p2 |-> 128], Q0 <- [class |-> Class[n], acc |-> 254, var |-> 65535],
+Node(n) == INSTANCE Instance WITH Own <- n, OwnP <- [p1 |-> Prio[n], p2 |-> Prio2[n]], Q0 <- [class |-> Class[n], acc |-> 254, var |-> 65535],
                                   SO0 <- SlaveOnly[n], PTrace <- FALSE, TP0 <- NetTP0, PCfg <- PCfgOf(n),
                                   SeqMod <- 1, Ghost <- FALSE, DevDup <- TRUE, Fwd <- FALSE, EmptyOnBmca <- FALSE
 
@@ -38,7 +40,7 @@ Init == /\ ns = [n \in Nodes |-> Node(n)!Init0]
         /\ didA = [p \in AllPorts |-> FALSE]
         /\ rc = [p \in AllPorts |-> 0]
         /\ armed = [p \in AllPorts |-> TRUE]                 \* Port::new hands out ResetAnnounceReceiptTimer
-        /\ stable = 0 /\ cut = {} /\ silent = {} /\ faulted = FALSE /\ hist = <<>>
+        /\ stable = 0 /\ cut = Cut0 /\ silent = {} /\ faulted = FALSE /\ hist = <<>>
 
 SegsOf(p) == {s \in Topo : p \in s /\ s \notin cut}
 Peers(p) == (UNION SegsOf(p)) \ {p}
@@ -91,6 +93,7 @@ Timeout(p) ==
      /\ UNCHANGED <<net, didB, didA, stable, cut, silent, faulted>>
 
 EndRound ==
+  /\ ~(ForceFault /\ ~faulted /\ stable >= K /\ Faults # {})
   /\ \A n \in Nodes \ silent : didB[n]
   /\ \A p \in AllPorts : (ns[p[1]].pst[p[2]] = "M" /\ p[1] \notin silent) => didA[p]
   /\ net = {}
@@ -107,6 +110,8 @@ Fault ==
   /\ faulted' = TRUE /\ stable' = 0
   /\ \/ \E s \in Topo : /\ "cut" \in Faults /\ s \notin cut /\ cut' = cut \cup {s} /\ UNCHANGED <<ns, silent>>
                         /\ hist' = (IF KeepHist THEN Append(hist, [e |-> "cut", seg |-> s]) ELSE hist)
+     \/ \E s \in cut : /\ "restore" \in Faults /\ cut' = cut \ {s} /\ UNCHANGED <<ns, silent>>
+                       /\ hist' = (IF KeepHist THEN Append(hist, [e |-> "restore", seg |-> s]) ELSE hist)
      \/ \E n \in Nodes : /\ "silence" \in Faults /\ silent' = silent \cup {n} /\ UNCHANGED <<ns, cut>>
                          /\ hist' = (IF KeepHist THEN Append(hist, [e |-> "silence", n |-> n]) ELSE hist)
      \/ \E n \in Nodes : /\ "quality" \in Faults /\ Class[n] = 248
@@ -127,7 +132,7 @@ Spec == Init /\ [][Next]_vars
 (***************************************************************************)
 ViewOfNet ==
   [pst |-> [n \in Nodes |-> ns[n].pst], ppi |-> [n \in Nodes |-> ns[n].ppi], gm |-> [n \in Nodes |-> ns[n].gm],
-   steps |-> [n \in Nodes |-> ns[n].steps], so |-> [n \in Nodes |-> ns[n].so], q |-> [n \in Nodes |-> ns[n].q],
+   steps |-> [n \in Nodes |-> ns[n].steps], so |-> [n \in Nodes |-> ns[n].so], q |-> [n \in Nodes |-> ns[n].q], p2 |-> Prio2,
    segs |-> Topo \ cut, alive |-> Nodes \ silent]
 
 TreeOK == TreeOKOf(ViewOfNet, Prio, N, AllPorts)
